@@ -109,6 +109,24 @@ Proof.
   intros r h H. h_hyps H M. unfold SxGate_mat, ISwapGate_mat, pZZ, pZ, pX. split; mx_meq [M].
 Qed.
 End C03.
+Print Assumptions C03_IdentityGate_involution.
+Print Assumptions C03_PauliXGate_involution.
+Print Assumptions C03_PauliYGate_involution.
+Print Assumptions C03_PauliZGate_involution.
+Print Assumptions C03_HadamardGate_involution.
+Print Assumptions C03_SGate_inverse.
+Print Assumptions C03_SAdjGate_inverse.
+Print Assumptions C03_TGate_inverse.
+Print Assumptions C03_TAdjGate_inverse.
+Print Assumptions C03_RxGate_inverse.
+Print Assumptions C03_RyGate_inverse.
+Print Assumptions C03_RxxGate_inverse.
+Print Assumptions C03_RzGate_inverse.
+Print Assumptions C03_RzzGate_inverse.
+Print Assumptions C03_RotationGate_zero_inverse.
+Print Assumptions C03_SxGate_inverse.
+Print Assumptions C03_ISwapGate_inverse.
+Print Assumptions C03_SxGate_ISwapGate_are_not_involutions.
 Print Assumptions C03_RyyGate_inverse.
 Print Assumptions C03_RotationGate_inverse.
 Print Assumptions C03_PhaseFactorGate_inverse.
@@ -164,21 +182,34 @@ Proof.
   intros theta g g'. expose. intros -> ->.
   apply C03_RxGate_inverse; [apply cs_ok_R | apply cos_neg_eq; lra | apply sin_neg_eq; lra].
 Qed.
+Print Assumptions C03_IdentityGate_inverse_R.
+Print Assumptions C03_PauliXGate_inverse_R.
+Print Assumptions C03_PauliYGate_inverse_R.
+Print Assumptions C03_PauliZGate_inverse_R.
+Print Assumptions C03_HadamardGate_inverse_R.
+Print Assumptions C03_SGate_inverse_R.
+Print Assumptions C03_SAdjGate_inverse_R.
+Print Assumptions C03_TGate_inverse_R.
+Print Assumptions C03_TAdjGate_inverse_R.
+Print Assumptions C03_RxGate_inverse_R.
 Theorem C03_RyGate_inverse_R : forall theta : R, inverse_ok cRyGate 1 0 [theta].
 Proof.
   intros theta g g'. expose. intros -> ->.
   apply C03_RyGate_inverse; [apply cs_ok_R | apply cos_neg_eq; lra | apply sin_neg_eq; lra].
 Qed.
+Print Assumptions C03_RyGate_inverse_R.
 Theorem C03_RzGate_inverse_R : forall theta : R, inverse_ok cRzGate 1 0 [theta].
 Proof.
   intros theta g g'. expose. intros -> ->.
   apply C03_RzGate_inverse; [apply unit_ok_R | apply expi_neg_eq; lra].
 Qed.
+Print Assumptions C03_RzGate_inverse_R.
 Theorem C03_RxxGate_inverse_R : forall theta : R, inverse_ok cRxxGate 2 0 [theta].
 Proof.
   intros theta g g'. expose. intros -> ->.
   apply C03_RxxGate_inverse; [apply cs_ok_R | apply cos_neg_eq; lra | apply sin_neg_eq; lra].
 Qed.
+Print Assumptions C03_RxxGate_inverse_R.
 Theorem C03_RyyGate_inverse_R : forall theta : R, inverse_ok cRyyGate 2 0 [theta].
 Proof.
   intros theta g g'. expose. intros -> ->.
@@ -189,6 +220,7 @@ Proof.
   intros theta g g'. expose. intros -> ->.
   apply C03_RzzGate_inverse; [apply unit_ok_R | apply expi_neg_eq; lra].
 Qed.
+Print Assumptions C03_RzzGate_inverse_R.
 Print Assumptions C03_RyyGate_inverse_R.
 
 Theorem C03_RotationGate_inverse_R : forall v0 v1 v2 : R, inverse_ok cRotationGate 1 0 [v0; v1; v2].
@@ -212,6 +244,7 @@ Proof.
   intros n phi g g'. expose. intros -> ->.
   apply (C03_PhaseFactorGate_inverse (K:=CS)); [apply unit_ok_R | apply expi_neg_eq; lra].
 Qed.
+Print Assumptions C03_PhaseFactorGate_inverse_R.
 Theorem C03_SxGate_inverse_R : inverse_ok cSxGate 1 0 [].
 Proof.
   intros g g'. expose. intros -> ->.
@@ -233,3 +266,5 @@ Example C03_instance :
   /\ (let e := fun a => match a with 1%nat => VObj 7 | 2%nat => VObj 5 | 0%nat => VList [] | _ => VNone end in
       inv_particles gen_db cISwapGate e = [Some 7%nat; Some 5%nat]).
 Proof. vm_compute. split; reflexivity. Qed.
+
+Print Assumptions C03_ISwapGate_inverse_R.
